@@ -112,17 +112,26 @@ def run(ctx: Context) -> None:
         ctx.check('R10.1', bool(rets) and all(norm_text(r.value) == 'values' for r in rets), "the normalised array is returned", ti, rets[0] if rets else ti.node)
         gs = ctx.func(f"{UGRID}._get_start_index")
         gflow = ctx.flow(gs)
-        rv = []
-        for r in gs.returns():
-            tests = [norm_text(st.test) for st, inb in enclosing_ifs(gs, r) if inb]
-            rv.append((norm_text(r.value), tests))
-        ok = (("0", ["'start_index' not in connectivity.attrs"]) in rv and any(v == 'int(start_index)' and t == ['start_index in {0, 1}'] for v, t in rv)
-              and any(v == 'int(start_index)' and t == ["start_index in {'0', '1'}"] for v, t in rv))
-        gcfg = ctx.cfg(gs)
-        ex = gcfg.exits()
-        ok = ok and not [n for k, n in ex if k == 'fall'] and any(k == 'raise' and 'ConventionViolationError' in norm_text(n) for k, n in ex)
+        # the function is folded over the values the attribute can hold (absent, the two integers, the same as floats and as text, others)
+        from .common import Undecided, fold_function
+        p0_ = gs.params[0]
+        want_si = [({}, ('return', 0)), ({'start_index': 0}, ('return', 0)), ({'start_index': 1}, ('return', 1)), ({'start_index': 1.0}, ('return', 1)),
+                   ({'start_index': 0.0}, ('return', 0)), ({'start_index': '0'}, ('return', 0)), ({'start_index': '1'}, ('return', 1)),
+                   ({'start_index': 2}, ('raise', 'ConventionViolationError')), ({'start_index': -1}, ('raise', 'ConventionViolationError')),
+                   ({'start_index': 'one'}, ('raise', 'ConventionViolationError')), ({'start_index': '2'}, ('raise', 'ConventionViolationError')),
+                   ({'start_index': 0.5}, ('raise', 'ConventionViolationError'))]
+        got_si = []
+        ok = True
+        for attrs_, expect in want_si:
+            try:
+                out_ = fold_function(gs, {f"{p0_}.attrs": attrs_})
+            except Undecided as exc:
+                out_ = ('undecided', str(exc))
+            got_si.append((attrs_.get('start_index', '<absent>'), out_))
+            # an index base is an integer: 1.0 returned as it is would turn the index arrays into floats
+            ok = ok and out_ == expect and (out_[0] != 'return' or type(out_[1]) is int)
         ctx.check('R10.1', ok, "start_index is 0 when absent, 0/1 converted to int (a float-typed attribute 1.0 passes the membership test: returned as it is, it would turn the index arrays into floats), '0'/'1' converted, anything else is a ConventionViolationError", gs, gs.node,
-                  construct=f"_get_start_index returns {rv}")
+                  construct=f"_get_start_index folded over attribute values: {got_si}"[:400])
         # who may read raw connectivity values
         offenders = []
         for fi in p.functions.values():
@@ -355,18 +364,26 @@ def run(ctx: Context) -> None:
         ok = 'dims = set(self.face_node_connectivity.dims)' in txt and 'dims.remove(self.face_dimension)' in txt and 'return dims.pop()' in txt
         ctx.check('R10.5', ok, "max-node dimension: the other dimension of face_node_connectivity", mn, mn.node)
         ed = ctx.func(f"{TOPO}.edge_dimension")
-        txt = ' '.join(norm_text(s) for s in ed.body)
+        from .common import facts as _facts10, spell_out as _spell10
+        edflow = ctx.flow(ed)
         keys_ed = {n.value for n in ast.walk(ed.node) if isinstance(n, ast.Constant) and isinstance(n.value, str) and n.value.endswith('_connectivity')}
-        ok = ("if not self.has_edge_dimension" in txt and "return self.mesh_attributes['edge_dimension']" in txt
-              and keys_ed == {'edge_node_connectivity', 'edge_face_connectivity'} and 'variable.dims[0] for variable in variables' in txt)
-        ctx.check('R10.5', ok, "edge dimension: the edge_dimension attribute, else the first dimension of a supplied edge table", ed, ed.node)
+        refusals = [n for n in walk_no_nested(ed.node) if isinstance(n, ast.Raise) and ('self.has_edge_dimension', False) in _facts10(ctx, ed, n)]
+        attr_ret = [r for r in ed.returns() if norm_text(_spell10(ed, edflow.resolve(r.value))) == "self.mesh_attributes['edge_dimension']"]
+        infer_ret = [r for r in ed.returns() if r not in attr_ret]
+        # the inferred dimension is dimension 0 of a variable the mesh names under an edge table key and the dataset holds
+        tests_ed = {norm_text(_spell10(ed, n)) for n in ast.walk(ed.node) if isinstance(n, ast.Compare) and len(n.ops) == 1 and isinstance(n.ops[0], (ast.In, ast.NotIn))}
+        dims_ed = [n for n in ast.walk(ed.node) if isinstance(n, ast.Subscript) and isinstance(n.value, ast.Attribute) and n.value.attr == 'dims']
+        asked = any(t.endswith(' in self.mesh_attributes') or t.endswith(' not in self.mesh_attributes') for t in tests_ed if not t.startswith("'edge_dimension'")) \
+            and any(t.endswith(' in self.dataset.variables') or t.endswith(' not in self.dataset.variables') for t in tests_ed)
+        ok = (bool(refusals) and len(attr_ret) == 1 and len(infer_ret) == 1 and keys_ed == {'edge_node_connectivity', 'edge_face_connectivity'}
+              and bool(dims_ed) and all(const_value(n.slice, None) == 0 for n in dims_ed) and asked
+              and any(x is dims_ed[0] for x in ast.walk(infer_ret[0])) or (len(infer_ret) == 1 and bool(dims_ed) and edflow.reaches(infer_ret[0].value, lambda n: n is dims_ed[0])
+                                                                          and bool(refusals) and len(attr_ret) == 1 and keys_ed == {'edge_node_connectivity', 'edge_face_connectivity'}
+                                                                          and all(const_value(n.slice, None) == 0 for n in dims_ed) and asked))
+        ctx.check('R10.5', bool(ok), "edge dimension: the edge_dimension attribute, else the first dimension of a supplied edge table", ed, ed.node)
         # the declared attribute wins over the inferred dimension (a transposed table would otherwise name the wrong one)
-        from ..pattern import Matcher
-        med = Matcher(ctx, ed)
-        attr_ret = [r for r in ed.returns() if norm_text(r.value) == "self.mesh_attributes['edge_dimension']"]
-        infer_ret = [r for r in ed.returns() if 'dims[0]' in norm_text(ctx.flow(ed).resolve(r.value))]
-        ok = len(attr_ret) == 1 and len(infer_ret) == 1 and attr_ret[0].lineno < infer_ret[0].lineno \
-            and not any(any(x is attr_ret[0] for x in ast.walk(h)) for t in ast.walk(ed.node) if isinstance(t, ast.Try) for h in t.handlers)
+        declared = ("'edge_dimension' in self.mesh_attributes", True)
+        ok = (len(attr_ret) == 1 and len(infer_ret) == 1 and declared in _facts10(ctx, ed, attr_ret[0]) and (declared[0], False) in _facts10(ctx, ed, infer_ret[0]))
         ctx.check('R10.5', ok, "the edge_dimension attribute is consulted first; the first dimension of an edge table is only the fall-back", ed,
                   attr_ret[0] if attr_ret else ed.node, construct=f"edge_dimension returns, in order: {[norm_text(r.value) for r in sorted(ed.returns(), key=lambda r: r.lineno)]}")
         tw = ctx.func(f"{TOPO}.two_dimension")
